@@ -199,6 +199,7 @@ def prep_cli(ck, prop_file):
     if not ok2:
         ck.tie_broken.append("varlink-cli does not build: " + log2[-400:])
     ck.trusted = ["Coq 8.16.1 kernel", "lib/check_cli.py (process runner, scripted services and resolver in harness/src/bin/h_actsrv.rs)",
+                  "tr/proxy.py (cache discipline, rewritten strings, where the bridge constructs its two buffered readers), tr/cli.py (what main() exits with after a failed command with and without --debug; `?` on varlink_call; the URL delimiters)",
                   "modelled not verified: process spawning, epoll close-watching, pretty-printing and colour of the CLI"]
     return model_ok, ok1 and ok2
 
